@@ -134,6 +134,7 @@ struct CallCtx {
     int expect_mgr = -1;    // manager id the call was given; 0 = libc (NULL manager); -1 = any
     int req_count = 0;      // allocation requests seen during this call
     int free_count = 0;
+    unsigned long long released_total = 0;   // blocks actually released by calls of this context (never reset; callers take differences)
     int fired = 0;          // injected failures that fired
     unsigned long long steps = 0;   // edges executed by the current library call (step budget)
     FaultPlan fault;
@@ -172,6 +173,9 @@ struct Global {
     void (*yield_hook)(int why) = nullptr;   // scheduler hook, called at yield points
     // giant readable region (C17 INT_MAX clause)
     uintptr_t giant_lo = 0, giant_hi = 0;
+    // control-flow edges one library call may execute before it counts as "does not return" (raised for the giant inputs of C17,
+    // where any linear-time algorithm legitimately needs billions of steps)
+    unsigned long long step_budget = 30000000ull;
 };
 extern Global g;
 // coverage state lives in plain zero-initialised statics: the sancov constructors run before g's constructor
